@@ -6,12 +6,20 @@
    Proved here, for every byte string:
      - termination of scanning: every call of the matcher consumes at least one byte (C03_progress);
      - no stray output: the flex default rule (ECHO to stdout) is never selected (C03_no_stray_output);
+     - the scanner with its include machine is total (C03_scanner_total): for every text and every file system it
+       stops at the end of the input or at an error token - the fuel and the include-depth budget of the model
+       always suffice, no action of the table is unknown, and no path reaches YY_FATAL_ERROR (exit);
+     - the parser is total on every token stream the scanner can deliver (C03_parser_total): POk or PErr, never out
+       of fuel, never an impossible tree, never reading past the stopping token;
+     - hence config_read / config_read_file answer success, failure or "nesting beyond the parser stack" for every
+       input: no hang, no process exit, in the model (C03_read_total, C03_read_file_total);
      - the error-state part of "afterwards the configuration can still be ... re-read" is C09.
    History: F5 (default rule reachable inside an include path) and F6 (include of a directory reached
    exit(2)) were defects of the original tree, repaired in /repo. *)
 From Coq Require Import List ZArith NArith Bool.
 Import ListNotations.
-From LC Require Import Base Regex RegexFacts FlexEngine Bisim ScanAction ScannerSpec ScannerCert ScannerFacts.
+From LC Require Import Base Tree Regex RegexFacts FlexEngine Bisim ScanAction ScannerSpec ScannerCert ScannerFacts
+  Tokens Lexer Parser Reader GrammarFacts ParseTotal LexTotal ReadTotal.
 From LC.gen Require Import ScannerTables.
 Local Open Scope Z_scope.
 
@@ -21,7 +29,7 @@ Local Open Scope Z_scope.
 Theorem C03_progress : forall sc bol b r,
   In (sc, bol) all_conditions -> bytes_ok (b :: r) ->
   exists rule len pat,
-    flex_match the_tables sc bol (b :: r) = Some (rule, len) /\ (1 <= len <= length (b :: r))%nat /\
+    flex_match ScannerCert.the_tables sc bol (b :: r) = Some (rule, len) /\ (1 <= len <= length (b :: r))%nat /\
     In (rule, pat) (spec_rules sc bol) /\ matches pat (firstn len (b :: r)).
 Proof. exact scanner_progress. Qed.
 Print Assumptions C03_progress.
@@ -30,7 +38,7 @@ Print Assumptions C03_progress.
    write the byte to the program's standard output *)
 Theorem C03_no_stray_output : forall sc bol b r rule len,
   In (sc, bol) all_conditions -> bytes_ok (b :: r) ->
-  flex_match the_tables sc bol (b :: r) = Some (rule, len) ->
+  flex_match ScannerCert.the_tables sc bol (b :: r) = Some (rule, len) ->
   1 <= rule <= 47 /\ action_of yy_actions rule <> AEcho /\ action_of yy_actions rule <> AUnknown.
 Proof.
   intros sc bol b r rule len Hc Hb H.
@@ -39,3 +47,36 @@ Proof.
   pose proof (spec_rule_numbers _ _ _ _ Hin) as Hr. split; [exact Hr | apply no_echo_action; exact Hr].
 Qed.
 Print Assumptions C03_no_stray_output.
+
+(* ---- totality of the reader model ---- *)
+(* the scanner and its include machine: for every text and file system (bytes 0..255) the scan ends at the end of
+   the input or at an error token, and the token list contains that stopping token *)
+Theorem C03_scanner_total : forall atof FS,
+  (forall f content, fs_lookup FS f = Some (FFile content) -> bytes_ok content) ->
+  forall c top text, bytes_ok text ->
+  let '(toks, stop) := lex_top atof FS c top text in
+  (stop = StopEOB \/ stop = StopError) /\ has_stop (map lt_tok toks).
+Proof. exact lex_top_total. Qed.
+Print Assumptions C03_scanner_total.
+
+(* the parser on such a stream: accepted or rejected with an error, for every tree to fill and every option *)
+Theorem C03_parser_total : forall ov s,
+  has_stop (ptoks s) -> s_ty (p_root s) = TGroup ->
+  match p_config ov s with POk _ | PErr _ _ => True | _ => False end.
+Proof. exact p_config_total. Qed.
+Print Assumptions C03_parser_total.
+
+(* config_read (string / stream) and config_read_file: success, failure, or the parser-stack limit *)
+Theorem C03_read_total : forall atof FS,
+  (forall f content, fs_lookup FS f = Some (FFile content) -> bytes_ok content) ->
+  forall c top text, bytes_ok text ->
+  match rd_out_ (config_read atof FS c top text) with RdOk | RdFail | RdNest => True | _ => False end.
+Proof. exact config_read_total. Qed.
+Print Assumptions C03_read_total.
+
+Theorem C03_read_file_total : forall atof FS,
+  (forall f content, fs_lookup FS f = Some (FFile content) -> bytes_ok content) ->
+  forall c path,
+  match rd_out_ (config_read_file atof FS c path) with RdOk | RdFail | RdNest => True | _ => False end.
+Proof. exact config_read_file_total. Qed.
+Print Assumptions C03_read_file_total.
